@@ -251,6 +251,7 @@ DEFAULT_CFG = {
     "strat_obj": False,
     "rec_durs": [0],             # ticks spent inside the strategy object's record_failure (menu)
     "abort_kind": "method",      # "falsy-object": abort_if is a callable object whose bool() is False
+    "async_awaitables": False,   # C12: async variants get awaitable-object sleeper / before_sleep
     "ok_awaitable": False,       # async: a successful attempt returns an awaitable *object* (a handle)          # strategies are objects exposing record_success / record_failure
     "loop": False,               # async entry points run as Tasks on the virtual event loop
     "attempt_timeout": None,     # ticks: attempt_timeout_s (sync: owned executor; async: needs loop)
